@@ -467,4 +467,300 @@ class C09(SimSpec):
         return SimSpec.floors(self, cov)
 
 
-SPECS = {c.prop: c for c in (C01, C02, C03, C04, C05, C06, C09)}
+# ----------------------------------------------------------------------------------------------- C14
+class C14(SimSpec):
+    prop = "C14"
+    n = {"quick": 320, "thorough": 4500}
+    rule = (
+        "submissions in which the user runs cancel-jobs at a random moment (batches queued / running / some finished / jobs still unsubmitted because of max-nodes or "
+        "dependencies), followed by further try-submit-jobs / show-status -n rounds; scancel kills the node at a driver-chosen later point; oracle: no successful sbatch after the "
+        "first lock-free observation with is_canceled, every id persisted at cancel-jobs' promotion received scancel, rows present at the cancel are present at the end, never-run "
+        "jobs reported missing at completion; non-trivial = cancel became visible while >= 1 job was unsubmitted and >= 1 batch was active"
+    )
+
+    def gen(self, rng, i, tier):
+        scen = scenario.gen_scenario(rng, max_jobs=10 if tier == "quick" else 14, min_jobs=4)
+        scen["cancel"] = rng.choice([0.005, 0.02, 0.05, 0.2])
+        scen["cancel_complete"] = rng.random() < 0.8
+        scen["cancel_host"] = rng.choice(["login", "login2"])
+        if i % 2 == 0:
+            scen["max_nodes"] = rng.choice([1, 1, 2])
+            for g in scen["groups"]:
+                g["batch"] = rng.randint(1, 3)
+        scen["user"] = {"try_submit": rng.choice([1, 2, 3]), "show_status": rng.choice([0, 1, 2]), "p": 0.02}
+        scen["policy"]["finish_w"] = rng.choice([0.05, 0.2, 1.0])
+        return scen
+
+    def nontrivial(self, t, r):
+        return bool(r.get("canceled")) and (r.get("cancel_unsubmitted") or 0) >= 1 and (r.get("cancel_active") or 0) >= 1
+
+    def counters(self, tasks, results):
+        c = self.base_counters(tasks, results)
+        ok = [r for r in results if not r.get("error")]
+        c["runs_where_cancel_became_visible"] = sum(1 for r in ok if r.get("canceled"))
+        c["scancel_calls"] = total(ok, "scancels")
+        c["sbatch_calls_after_cancel_command_started"] = total(ok, "sbatch_after_cancel_cmd")
+        c["canceled_runs_reaching_completion"] = sum(1 for r in ok if r.get("canceled") and r.get("complete"))
+        c["canceled_runs_not_reaching_completion"] = sum(1 for r in ok if r.get("canceled") and not r.get("complete"))
+        c["nodes_killed_by_scancel"] = total(ok, "killed_nodes")
+        return c
+
+    def floors(self, cov):
+        if cov.get("runs_where_cancel_became_visible", 0) < 30:
+            return "cancel became visible in fewer than 30 runs"
+        return None
+
+
+# ----------------------------------------------------------------------------------------------- C16
+class C16(SimSpec):
+    prop = "C16"
+    n = {"quick": 320, "thorough": 4000}
+    rule = (
+        "all 16 subsets of {setup, teardown, node setup, node teardown} x local/HPC mode x DAGs with and without failures; the commands are probes that report host, node, "
+        "environment and the instant; oracle: setup once on the submitting host before the first sbatch; teardown once per completion, after every job has an outcome and before the "
+        "completion flag; node setup before / node teardown after the batch's jobs, once per batch, with JADE_RUNTIME_OUTPUT and JADE_SUBMISSION_GROUP; results still recorded; "
+        "non-trivial = >= 2 lifecycle commands configured and observed, run complete; distinct adds the configured subset"
+    )
+
+    def gen(self, rng, i, tier):
+        scen = scenario.gen_scenario(rng, max_jobs=8 if tier == "quick" else 12)
+        sub = i % 16
+        scen["hooks"] = {"setup": bool(sub & 1), "teardown": bool(sub & 2), "nsetup": bool(sub & 4), "nteardown": bool(sub & 8)}
+        if (i // 16) % 4 == 3:
+            scen["mode"] = "local"
+            scen["groups"] = scen["groups"][:1]
+            scen["groups"][0]["time_based"] = False
+            for j in scen["jobs"]:
+                j["group"] = scen["groups"][0]["name"]
+            scen["user"] = {}
+        if rng.random() < 0.15:
+            scen["hooks"]["rc"] = {rng.choice(["teardown", "nteardown"]): 1}
+        return scen
+
+    def shape(self, t, r):
+        h = t["args"]["scen"]["hooks"]
+        return SimSpec.shape(self, t, r) + "".join(k[0:2] for k in ("setup", "teardown", "nsetup", "nteardown") if h.get(k))
+
+    def nontrivial(self, t, r):
+        h = t["args"]["scen"]["hooks"]
+        return sum(1 for k in ("setup", "teardown", "nsetup", "nteardown") if h.get(k)) >= 2 and len(r.get("hook_kinds") or []) >= 2 and r.get("complete")
+
+    def counters(self, tasks, results):
+        c = self.base_counters(tasks, results)
+        ok = [r for r in results if not r.get("error")]
+        c["lifecycle_command_launches_checked"] = total(ok, "hooks")
+        c["subsets_exercised"] = len({tuple(sorted(k for k in ("setup", "teardown", "nsetup", "nteardown") if t["args"]["scen"]["hooks"].get(k))) for t in tasks})
+        c["local_mode_runs"] = sum(1 for t in tasks if t["args"]["scen"].get("mode") == "local")
+        return c
+
+    def floors(self, cov):
+        if cov.get("lifecycle_command_launches_checked", 0) < 100:
+            return "fewer than 100 lifecycle command launches observed"
+        if cov.get("subsets_exercised", 0) < 16:
+            return "not all 16 subsets exercised"
+        return None
+
+
+# ----------------------------------------------------------------------------------------------- C12
+def add_cycle(rng, scen):
+    js = scen["jobs"]
+    if len(js) < 2:
+        return
+    a, b = rng.sample(js, 2)
+    if b["name"] not in a["blocked_by"]:
+        a["blocked_by"].append(b["name"])
+    if a["name"] not in b["blocked_by"]:
+        b["blocked_by"].append(a["name"])
+    scen["cycle"] = True
+
+
+class C12(SimSpec):
+    prop = "C12"
+    n = {"quick": 330, "thorough": 3000}
+    rule = (
+        "fault scenarios: (a) 1-2 nodes killed at random scheduling points before or while their jobs run (probes die with the node; the batch vanishes from squeue), "
+        "(b) sbatch failing after all retries or answering without a job id for a random subset of batches, (c) dependency cycles, (d) thorough: every scheduling point of one "
+        "node's run-jobs enumerated as a kill point by replaying the same schedule; then the documented recovery until idle; oracle at completion: missing_jobs == configured minus "
+        "results, finished rows only for probes that really exited with that code, canceled rows only if justified, no start with a missing blocker, rows ever seen still present, "
+        "completion reached; non-trivial = >= 1 lost batch or cycle and >= 1 job that finished elsewhere, with a dependent of a lost job present"
+    )
+
+    def gen(self, rng, i, tier):
+        scen = scenario.gen_scenario(rng, max_jobs=10 if tier == "quick" else 14, min_jobs=3, fail_p=0.3)
+        kind = i % 4
+        if kind == 0:
+            scen["faults"] = {"node_kill": rng.choice([1, 1, 2]), "node_kill_w": rng.choice([0.01, 0.03, 0.1])}
+            scen["policy"]["finish_w"] = rng.choice([0.05, 0.2, 1.0])
+        elif kind == 1:
+            scen["faults"] = {"sbatch_fail": rng.choice([0.2, 0.5])}
+        elif kind == 2:
+            scen["faults"] = {"sbatch_garbage": rng.choice([0.2, 0.5])}
+        else:
+            add_cycle(rng, scen)
+            if rng.random() < 0.5:
+                scen["faults"] = {"node_kill": 1, "node_kill_w": 0.03}
+        for g in scen["groups"]:
+            g["batch"] = rng.randint(1, 3)
+        scen["fault_kind"] = ["node_kill", "sbatch_fail", "sbatch_garbage", "cycle"][kind]
+        return scen
+
+    def tasks(self, tier, seed):
+        out = SimSpec.tasks(self, tier, seed)
+        # retries of a failing sbatch take 6 x 10 virtual seconds: nothing to pay in wall time
+        return out
+
+    def second_phase(self, tier, seed, tasks, results):
+        """Enumeration of node-kill points: take base runs (fault-free part of the campaign is replayed with the
+        same seed), record the scheduling points of one run-jobs process, re-execute with a kill at each."""
+        nbase = {"quick": 2, "thorough": 10}[tier]
+        extra = []
+        k = len(tasks)
+        for b in range(nbase):
+            s = sub_seed(seed, b, "C12enum")
+            rng = random.Random(s)
+            scen = scenario.normalize(scenario.gen_scenario(rng, max_jobs=7, min_jobs=4, fail_p=0.2))
+            for g in scen["groups"]:
+                g["batch"] = rng.randint(2, 3)
+            scen["user"] = {}
+            scen["policy"] = {"kind": "sticky", "sticky": 0.7, "finish_w": 1.0, "start_w": 1.0, "time_w": 0.0}
+            ordn = rng.choice([0, 0, 1])
+            npoints = {"quick": 45, "thorough": 400}[tier]
+            for kp in range(1, npoints + 1):
+                for fl in ("", "legacy") if tier == "thorough" else ("",):
+                    sc = copy.deepcopy(scen)
+                    sc["faults"] = {"killnode_at": [ordn, kp], "record_run_points": ordn}
+                    sc["filelock"] = fl
+                    sc["fault_kind"] = "enumerated_node_kill"
+                    sc["enum_base"] = b
+                    extra.append(sim_task(sc, s, k))
+                    k += 1
+        return extra
+
+    def nontrivial(self, t, r):
+        s = t["args"]["scen"]
+        lost = (r.get("killed_nodes") or 0) + sum(1 for f in (r.get("faults") or []) if f and f[0].startswith("sbatch"))
+        return (lost >= 1 or s.get("cycle")) and r.get("complete") and len(r.get("final_classes") or {}) >= 1 and bool(r.get("missing"))
+
+    def shape(self, t, r):
+        return SimSpec.shape(self, t, r) + str(t["args"]["scen"].get("fault_kind")) + str((t["args"]["scen"].get("faults") or {}).get("killnode_at"))
+
+    def counters(self, tasks, results):
+        c = self.base_counters(tasks, results)
+        ok = [r for r in results if not r.get("error")]
+        c["nodes_killed"] = total(ok, "killed_nodes")
+        c["sbatch_failures_injected"] = sum(1 for r in ok for f in (r.get("faults") or []) if f and f[0] in ("sbatch_fail", "sbatch_garbage"))
+        c["cycle_scenarios"] = sum(1 for t in tasks if t["args"]["scen"].get("cycle"))
+        c["runs_with_missing_jobs_reported"] = sum(1 for r in ok if r.get("missing"))
+        c["runs_reaching_completion"] = sum(1 for r in ok if r.get("complete"))
+        c["fault_kinds"] = hist(t["args"]["scen"].get("fault_kind") for t in tasks)
+        sites = set()
+        npts = 0
+        for t, r in zip(tasks, results):
+            if t["args"]["scen"].get("fault_kind") == "enumerated_node_kill" and not r.get("error"):
+                for f in r.get("faults") or []:
+                    if f and f[0] == "node_kill":
+                        sites.add(f[2])
+                        npts += 1
+        c["enumerated_node_kill_points_hit"] = npts
+        c["enumerated_node_kill_site_classes"] = len(sites)
+        c["enumerated_site_class_examples"] = sorted(sites)[:12]
+        return c
+
+    def floors(self, cov):
+        if cov.get("nodes_killed", 0) < 30:
+            return "fewer than 30 nodes killed"
+        if cov.get("sbatch_failures_injected", 0) < 20:
+            return "fewer than 20 sbatch failures injected"
+        if cov.get("runs_with_missing_jobs_reported", 0) < 30:
+            return "fewer than 30 runs ended with missing jobs reported"
+        return None
+
+
+# ----------------------------------------------------------------------------------------------- C13
+class C13(SimSpec):
+    prop = "C13"
+    n = {"quick": 300, "thorough": 3500}
+    rule = (
+        "a base submission run to completion (successful / failed / canceled jobs by exit codes and flags; missing jobs through a killed node; with and without report generation), "
+        "then `jade resubmit-jobs` with a random flag combination (--failed/--no-failed, --missing/--no-missing, --successful/--no-successful), run to completion, in a share of runs "
+        "followed by a second resubmission; a share runs the command on an incomplete submission instead (idle, or while another process holds the submitter role, from the same or "
+        "another host) and a share injects a kill / EDQUOT into resubmit-jobs itself and then tries the documented commands; oracle: started set == closure of the selection (minus "
+        "canceled), each once, dependency order with the new outcomes, other results identical, one entry per job afterwards; refusal is harmless; non-trivial = resubmission with a "
+        "non-empty closure strictly larger than the direct selection, or a refusal while another process held the role (a small slice with an error injected into the command is informational only)"
+    )
+    task_timeout = 200
+
+    def gen(self, rng, i, tier):
+        scen = scenario.gen_scenario(rng, max_jobs=9 if tier == "quick" else 12, min_jobs=3, fail_p=0.6, flag_p=0.5)
+        scen["reports"] = rng.random() < 0.35
+        kind = i % 6
+        rs = {"rounds": []}
+        def flags():
+            return {"failed": rng.random() < 0.8, "missing": rng.random() < 0.8, "successful": rng.random() < 0.25}
+        if kind in (0, 1, 2):
+            rs["rounds"] = [flags()] + ([flags()] if rng.random() < 0.3 else [])
+            if kind == 2:
+                scen["faults"] = {"node_kill": 1, "node_kill_w": rng.choice([0.02, 0.05])}
+        elif kind == 3:
+            rs["early_p"] = rng.choice([0.02, 0.05, 0.2])
+            rs["rounds"] = [flags()]
+        elif kind == 4:
+            rs["idle"] = True
+            rs["rounds"] = [flags()]
+            scen["policy"]["kind"] = "sticky"
+            scen["policy"]["sticky"] = 0.95
+            scen["policy"]["finish_w"] = 3.0
+            scen["max_nodes"] = rng.choice([1, 2])
+        elif i % 12 == 5:
+            # informational slice (not part of the verdict: C13 does not quantify over injected faults)
+            rs["rounds"] = [{"failed": True, "missing": True, "successful": rng.random() < 0.5}]
+            rs["faults"] = {"crash_cmd": ["resubmit-jobs", rng.randint(1, 80), "raise"]}
+        else:
+            rs["rounds"] = [flags(), flags()] + ([flags()] if rng.random() < 0.3 else [])
+            kind = 6
+        scen["resubmit"] = rs
+        scen["resub_kind"] = ["plain", "plain", "with_missing", "refuse_busy", "refuse_idle", "fault_in_command", "repeated"][kind]
+        scen["obs_inside"] = kind in (0, 1)
+        return scen
+
+    def tasks(self, tier, seed):
+        out = SimSpec.tasks(self, tier, seed)
+        for t in out:
+            t["args"]["cls"] = "sim.resub:ResubSim"
+        return out
+
+    def shape(self, t, r):
+        return SimSpec.shape(self, t, r) + t["args"]["scen"]["resub_kind"] + str(t["args"]["scen"]["resubmit"].get("rounds"))
+
+    def nontrivial(self, t, r):
+        sizes = r.get("resub_sizes") or []
+        grew = any(c > s_ and c > 0 for (s_, c, l) in sizes)
+        return grew or (r.get("refusals_checked") or 0) >= 1
+
+    def counters(self, tasks, results):
+        c = self.base_counters(tasks, results)
+        ok = [r for r in results if not r.get("error")]
+        c["resubmissions_checked"] = total(ok, "resubmissions_checked")
+        c["refusals_checked"] = total(ok, "refusals_checked")
+        c["faults_in_resubmit_command_checked"] = total(ok, "resub_fault_checked")
+        c["scenario_kinds"] = hist(t["args"]["scen"]["resub_kind"] for t in tasks)
+        c["with_reports"] = sum(1 for t in tasks if t["args"]["scen"]["reports"])
+        c["closure_larger_than_selection"] = sum(1 for r in ok for (s_, cl, l) in (r.get("resub_sizes") or []) if cl > s_)
+        c["flag_combinations"] = len({json_key(fl) for t in tasks for fl in t["args"]["scen"]["resubmit"].get("rounds", [])})
+        return c
+
+    def floors(self, cov):
+        if cov.get("resubmissions_checked", 0) < 60:
+            return "fewer than 60 resubmissions reached the oracle"
+        if cov.get("refusals_checked", 0) < 15:
+            return "fewer than 15 refusals observed"
+        return None
+
+
+def json_key(d):
+    import json as _j
+
+    return _j.dumps(d, sort_keys=True)
+
+
+SPECS = {c.prop: c for c in (C01, C02, C03, C04, C05, C06, C09, C12, C13, C14, C16)}
